@@ -870,7 +870,8 @@ void strmaxprep2(char* p_dest, char const* p_src, size_t max_len) {
     if (dest_len >= max_len) {
         dest_len = max_len - 1;
     }
-    memmove(p_dest + src_len, p_dest, dest_len + 1);
+    memmove(p_dest + src_len, p_dest, dest_len);
+    p_dest[src_len + dest_len] = '\0';
     memmove(p_dest, p_src, src_len);
 }
 
